@@ -22,6 +22,7 @@ import (
 	"pgregory.net/rapid"
 
 	"verif/pkg/drv"
+	"verif/pkg/fe"
 	"verif/pkg/gram"
 	"verif/pkg/lab"
 	"verif/pkg/lab/proto"
@@ -281,6 +282,7 @@ func shippedGrammarFiles(c *drv.Ctx) []string {
 type shipped struct {
 	Dir, File, Struct string
 	Text              string
+	G                 *gram.Grammar // the grammar read back from the front end's tree (nil when that fails): fragments are sampled from it
 	Helpers           map[string][]byte
 	Samples           []string
 }
@@ -301,6 +303,14 @@ func loadShipped(c *drv.Ctx) []shipped {
 			continue
 		}
 		s := shipped{Dir: filepath.Base(filepath.Dir(f)), File: f, Struct: string(m[1]), Text: string(b), Helpers: map[string][]byte{}}
+		func() {
+			defer func() { _ = recover() }()
+			if r := fe.Parse(s.Text, false, false, false); r.Err == nil && r.Panic == "" && r.Tree != nil {
+				if g, problems := readTree(r.Tree); len(problems) == 0 && g != nil && len(g.Rules) > 0 {
+					s.G = g
+				}
+			}
+		}()
 		gofiles, _ := filepath.Glob(filepath.Join(filepath.Dir(f), "*.go"))
 		for _, g := range gofiles {
 			src, err := os.ReadFile(g)
@@ -399,6 +409,17 @@ func c17StrictCLI(c *drv.Ctx, sh []shipped) error {
 type shippedCase struct {
 	Grammar string     `json:"grammar"`
 	Input   proto.QStr `json:"input"`
+	// Entry: index of the rule the parse starts from (0: the grammar's first rule, as Parse()
+	// without argument); Rule is its name, for the reader
+	Entry int    `json:"entry,omitempty"`
+	Rule  string `json:"rule,omitempty"`
+}
+
+func entryNote(cs shippedCase) string {
+	if cs.Entry > 0 {
+		return " (parse started from rule " + cs.Rule + ")"
+	}
+	return ""
 }
 
 func mutateBytes(t *rapid.T, s string) string {
@@ -489,13 +510,36 @@ func buildShipped(c *drv.Ctx, sh []shipped) (*lab.Lab, error) {
 
 // judgeShipped compares the observations of the four variants (and memo modes) of one input.
 func judgeShipped(obs map[string]*proto.Obs) string {
+	// a memoising parser that burns CPU time without end where the parser of another option
+	// set decides the same input at once
+	var spinning, finished []string
+	for _, k := range sortedKeys(obs) {
+		if strings.HasSuffix(k, "/memo") {
+			if strings.HasPrefix(obs[k].Unstable, "does not terminate") {
+				spinning = append(spinning, k+" "+obs[k].Unstable)
+			} else {
+				finished = append(finished, k)
+			}
+		}
+	}
+	if len(spinning) > 0 && len(finished) > 0 {
+		return fmt.Sprintf("the memoising parser %s, while %v return at once on the same input", spinning[0], finished)
+	}
+	for _, s := range spinning {
+		delete(obs, strings.SplitN(s, " ", 2)[0])
+	}
 	base := obs["v0/memo"]
 	if base == nil {
+		return ""
+	}
+	if base.NilRule {
 		return ""
 	}
 	for _, k := range sortedKeys(obs) {
 		o := obs[k]
 		switch {
+		case o.NilRule:
+			// the rule was expanded in place under this option set: no entry point
 		case o.Panic != "":
 			return fmt.Sprintf("variant %s panicked: %s", k, o.Panic)
 		case o.OK != base.OK:
@@ -517,12 +561,14 @@ func runShippedInputs(c *drv.Ctx, l *lab.Lab, cases []shippedCase) []map[string]
 	var refs []ref
 	for ci, cs := range cases {
 		for _, v := range feVariants {
-			modes := []proto.Mode{memoMode}
+			// one request per memo mode: without the memo table a parser may legitimately
+			// need exponential time, with it it may not
+			reqs = append(reqs, proto.Req{Kind: "run", Pkg: cs.Grammar + v.Name, Entry: cs.Entry, Input: cs.Input, Modes: []proto.Mode{memoMode}})
+			refs = append(refs, ref{ci, v.Name, []proto.Mode{memoMode}})
 			if len(cs.Input) <= 160 {
-				modes = append(modes, noMemoMode)
+				reqs = append(reqs, proto.Req{Kind: "run", Pkg: cs.Grammar + v.Name, Entry: cs.Entry, Input: cs.Input, Modes: []proto.Mode{noMemoMode}})
+				refs = append(refs, ref{ci, v.Name, []proto.Mode{noMemoMode}})
 			}
-			reqs = append(reqs, proto.Req{Kind: "run", Pkg: cs.Grammar + v.Name, Input: cs.Input, Modes: modes})
-			refs = append(refs, ref{ci, v.Name, modes})
 		}
 	}
 	outs := l.Run(reqs, runtime.NumCPU(), 30*time.Second)
@@ -532,6 +578,12 @@ func runShippedInputs(c *drv.Ctx, l *lab.Lab, cases []shippedCase) []map[string]
 	}
 	for i, o := range outs {
 		r := refs[i]
+		if o.Diverged > 0 && !r.mode[0].NoMemo {
+			// CPU time of the worker itself, not elapsed time (see lab.Outcome.Diverged);
+			// judged against the other option sets in judgeShipped
+			res[r.ci][r.v+"/"+modeKey(r.mode[0])] = &proto.Obs{Unstable: fmt.Sprintf("does not terminate (%.0f s of CPU time)", o.Diverged)}
+			continue
+		}
 		if o.Hang {
 			c.Stats.Class("shipped_request_watchdog (memo-free or pathological input, skipped)")
 			continue
@@ -560,7 +612,7 @@ func c17Shipped(c *drv.Ctx, sh []shipped, n int) error {
 	var cases []shippedCase
 	for _, s := range sh {
 		for _, in := range s.Samples {
-			cases = append(cases, shippedCase{s.Dir, proto.QStr(in)})
+			cases = append(cases, shippedCase{Grammar: s.Dir, Input: proto.QStr(in)})
 		}
 	}
 	nSamples := len(cases)
@@ -570,12 +622,90 @@ func c17Shipped(c *drv.Ctx, sh []shipped, n int) error {
 			return
 		}
 		in := s.Samples[rapid.IntRange(0, len(s.Samples)-1).Draw(t, "sample")]
-		cases = append(cases, shippedCase{s.Dir, proto.QStr(mutateBytes(t, in))})
+		if s.G != nil && rapid.IntRange(0, 2).Draw(t, "fragment?") == 0 {
+			// grammar-directed: a fragment sampled from one of the grammar's own rules (every
+			// terminal of the grammar can turn up, escapes and all) replaces a stretch of a
+			// repository sample, or is parsed by itself
+			ch := gram.RapidChooser{T: t}
+			frag := string(gram.Sample(s.G, rapid.IntRange(0, len(s.G.Rules)-1).Draw(t, "fragrule"), ch, 40))
+			switch rapid.IntRange(0, 4).Draw(t, "fragwhere") {
+			case 0, 4:
+				// the fragment is parsed from the rule it was sampled from: every rule that
+				// keeps its own function under all option sets is an entry point
+				ri := rapid.IntRange(0, len(s.G.Rules)-1).Draw(t, "fragentry")
+				frag = string(gram.Sample(s.G, ri, ch, 40))
+				cases = append(cases, shippedCase{Grammar: s.Dir, Input: proto.QStr(frag), Entry: ri, Rule: s.G.Rules[ri].Name})
+				return
+			case 1:
+				in = string(gram.SamplePumped(s.G, 0, ch, 400, 4))
+			default:
+				at := rapid.IntRange(0, len(in)).Draw(t, "fragat")
+				cut := rapid.IntRange(0, 12).Draw(t, "fragcut")
+				if at+cut > len(in) {
+					cut = len(in) - at
+				}
+				in = in[:at] + frag + in[at+cut:]
+			}
+			cases = append(cases, shippedCase{Grammar: s.Dir, Input: proto.QStr(in)})
+			return
+		}
+		cases = append(cases, shippedCase{Grammar: s.Dir, Input: proto.QStr(mutateBytes(t, in))})
 	})
 	if res.Failed {
 		return fmt.Errorf("collecting inputs failed: %s", res.Log)
 	}
+	// systematically: every rule of every shipped grammar as the start rule, on fragments
+	// sampled from that rule (and one mutation of each)
+	perRule := c.Pick(4, 12)
+	type ruleRef struct {
+		s  *shipped
+		ri int
+	}
+	var allRules []ruleRef
+	for i := range sh {
+		if sh[i].G != nil {
+			for ri := range sh[i].G.Rules {
+				allRules = append(allRules, ruleRef{&sh[i], ri})
+			}
+		}
+	}
+	// one rapid case per rule (and some warm-up cases first: the library draws small values
+	// in its first cases, which would always take the first alternative of every choice)
+	const warm = 40
+	k := 0
+	res = drv.RunRapid("C17-rule-entries", warm+len(allRules), drv.ShardSeed(c.Seed, "c17-rule-entries", 0), time.Second, func(t *rapid.T) {
+		idx := k - warm
+		k++
+		ch := gram.RapidChooser{T: t}
+		if idx < 0 || idx >= len(allRules) {
+			_ = ch.Intn(3)
+			return
+		}
+		s, ri := allRules[idx].s, allRules[idx].ri
+		for j := 0; j < perRule; j++ {
+			frag := gram.Sample(s.G, ri, ch, 40)
+			cases = append(cases, shippedCase{Grammar: s.Dir, Input: proto.QStr(string(frag)), Entry: ri, Rule: s.G.Rules[ri].Name})
+			if j == 0 {
+				cases = append(cases, shippedCase{Grammar: s.Dir, Input: proto.QStr(string(gram.Mutate(frag, ch))), Entry: ri, Rule: s.G.Rules[ri].Name})
+			}
+		}
+	})
+	if res.Failed {
+		return fmt.Errorf("collecting rule-entry inputs failed: %s", res.Log)
+	}
 	obs := runShippedInputs(c, l, cases)
+	if os.Getenv("VERIF_DEBUG") != "" {
+		for i, cs := range cases {
+			if cs.Rule == "Escape" || cs.Rule == "UnicodeEscape" {
+				fmt.Fprintf(os.Stderr, "DEBUG %s entry %d %s input %q:", cs.Grammar, cs.Entry, cs.Rule, string(cs.Input))
+				for _, k := range sortedKeys(obs[i]) {
+					o := obs[i][k]
+					fmt.Fprintf(os.Stderr, " %s[nil=%v ok=%v %s]", k, o.NilRule, o.OK, o.Unstable)
+				}
+				fmt.Fprintln(os.Stderr)
+			}
+		}
+	}
 	for i, cs := range cases {
 		c.Stats.Eval()
 		base := obs[i]["v0/memo"]
@@ -583,7 +713,9 @@ func c17Shipped(c *drv.Ctx, sh []shipped, n int) error {
 			accepted := base.OK
 			far := base.ErrTok != nil && base.ErrTok.E >= 10
 			if (accepted || far) && c.Stats.Nontrivial(drv.Hash(cs.Grammar, string(cs.Input))) {
-				if i < nSamples {
+				if cs.Entry > 0 {
+					c.Stats.Class("nt_fragment_parsed_from_its_own_rule:" + cs.Grammar)
+				} else if i < nSamples {
 					c.Stats.Class("nt_repository_sample:" + cs.Grammar)
 				} else if accepted {
 					c.Stats.Class("nt_mutation_accepted:" + cs.Grammar)
@@ -602,7 +734,7 @@ func c17Shipped(c *drv.Ctx, sh []shipped, n int) error {
 			for round := 0; round < 12; round++ {
 				var cands []shippedCase
 				for _, in := range inputReductions(string(cur.Input)) {
-					cands = append(cands, shippedCase{cur.Grammar, proto.QStr(in)})
+					cands = append(cands, shippedCase{Grammar: cur.Grammar, Input: proto.QStr(in), Entry: cur.Entry, Rule: cur.Rule})
 				}
 				if len(cands) > 64 {
 					cands = cands[:64]
@@ -657,7 +789,7 @@ func shippedNativeFuzz(c *drv.Ctx, l *lab.Lab, sh []shipped, d time.Duration) {
 		c.Notes = append(c.Notes, fmt.Sprintf("native fuzzing stopped on grammars/%s, input %q, which the worker does not reproduce (treated as a slow execution): %s", cs.Grammar, string(cs.Input), firstLine(tail(res.Output, 300))))
 		return
 	}
-	c.AddViolation(drv.Violation{Property: c.ID, Kind: "shipped-input", What: fmt.Sprintf("grammars/%s on input %q: %s", cs.Grammar, string(cs.Input), what), Case: cs})
+	c.AddViolation(drv.Violation{Property: c.ID, Kind: "shipped-input", What: fmt.Sprintf("grammars/%s%s on input %q: %s", cs.Grammar, entryNote(cs), string(cs.Input), what), Case: cs})
 }
 
 func c17Run(c *drv.Ctx) error {
